@@ -68,12 +68,71 @@ func (fc *FnCtx) symbolsOf(t string) []string {
 
 // sliceAsserts: cone of influence of the goal (assertions that can constrain a symbol the goal depends on).
 // Dropping the others only weakens the hypotheses: an unsat answer on the slice is an unsat answer on the whole.
-func (fc *FnCtx) sliceAsserts(o *Obligation) []int {
-	if fc.assertSyms == nil {
-		fc.assertSyms = make([][]string, len(fc.q.asserts))
-		for i, a := range fc.q.asserts {
-			fc.assertSyms[i] = fc.symbolsOf(a)
+// defTargets: the constants an assertion defines, for the shapes the generator emits:
+//   (= X T)   (=> G (= X T))   with X a declared constant (both sides when T is a constant too).
+func (fc *FnCtx) defTargets(a string) []string {
+	body := a
+	if strings.HasPrefix(body, "(=> ") {
+		// skip the guard: one balanced term after "(=> "
+		k := 4
+		depth := 0
+		for ; k < len(body); k++ {
+			c := body[k]
+			if c == '(' {
+				depth++
+			} else if c == ')' {
+				depth--
+				if depth == 0 {
+					k++
+					break
+				}
+			} else if c == ' ' && depth == 0 {
+				break
+			}
 		}
+		if k >= len(body) {
+			return nil
+		}
+		body = strings.TrimSpace(body[k : len(body)-1])
+	}
+	if !strings.HasPrefix(body, "(= ") {
+		return nil
+	}
+	rest := body[3 : len(body)-1]
+	sp := strings.IndexByte(rest, ' ')
+	if sp < 0 || strings.ContainsAny(rest[:sp], "()") {
+		return nil
+	}
+	x := rest[:sp]
+	if _, ok := fc.q.declared[x]; !ok {
+		return nil
+	}
+	out := []string{x}
+	t := strings.TrimSpace(rest[sp+1:])
+	if !strings.ContainsAny(t, "() ") {
+		if _, ok := fc.q.declared[t]; ok {
+			out = append(out, t)
+		}
+	}
+	return out
+}
+
+func isCtlSym(s string) bool {
+	return strings.HasPrefix(s, "r_") || strings.HasPrefix(s, "alloc")
+}
+
+// sliceAsserts: a directed cone of influence of the goal. Any subset of the assertions is sound for an "unsat" answer
+// (fewer hypotheses); a "sat" answer on a slice is never believed. Definitions are followed from the goal; a constraint
+// is kept when it talks about a strongly relevant symbol; symbols that only constraints mention are weakly relevant:
+// their definitions are kept, further constraints about them are not.
+func (fc *FnCtx) sliceAsserts(o *Obligation) []int {
+	for len(fc.assertSyms) < len(fc.q.asserts) {
+		k := len(fc.assertSyms)
+		a := fc.q.asserts[k]
+		fc.assertSyms = append(fc.assertSyms, fc.symbolsOf(a))
+		fc.assertDefs = append(fc.assertDefs, fc.defTargets(a))
+	}
+	if fc.recSyms == nil {
 		fc.recSyms = map[string][]string{}
 		for _, d := range fc.q.recDefs {
 			parts := strings.Fields(d)
@@ -82,21 +141,6 @@ func (fc *FnCtx) sliceAsserts(o *Obligation) []int {
 			}
 		}
 	}
-	for len(fc.assertSyms) < len(fc.q.asserts) {
-		fc.assertSyms = append(fc.assertSyms, fc.symbolsOf(fc.q.asserts[len(fc.assertSyms)]))
-	}
-	rel := map[string]bool{}
-	var work []string
-	add := func(s string) {
-		if !rel[s] {
-			rel[s] = true
-			work = append(work, s)
-		}
-	}
-	for _, s := range fc.symbolsOf(o.Goal) {
-		add(s)
-	}
-	// index: symbol -> assertions mentioning it
 	if fc.symIndex == nil {
 		fc.symIndex = map[string][]int{}
 	}
@@ -106,26 +150,76 @@ func (fc *FnCtx) sliceAsserts(o *Obligation) []int {
 		}
 	}
 	fc.symIndexed = len(fc.q.asserts)
-	used := map[int]bool{}
-	for len(work) > 0 {
-		s := work[len(work)-1]
-		work = work[:len(work)-1]
-		for _, rs := range fc.recSyms[s] {
-			add(rs)
+	const strong, weak = 2, 1
+	rel := map[string]int{}
+	type item struct {
+		s   string
+		lvl int
+	}
+	var work []item
+	add := func(s string, lvl int) {
+		if rel[s] < lvl {
+			rel[s] = lvl
+			work = append(work, item{s, lvl})
 		}
-		for _, i := range fc.symIndex[s] {
-			if i >= o.NAsserts || used[i] {
+	}
+	for _, s := range fc.symbolsOf(o.Goal) {
+		add(s, strong)
+	}
+	used := map[int]int{}
+	for len(work) > 0 {
+		it := work[len(work)-1]
+		work = work[:len(work)-1]
+		if rel[it.s] > it.lvl {
+			continue
+		}
+		for _, rs := range fc.recSyms[it.s] {
+			add(rs, it.lvl)
+		}
+		if body, ok := fc.q.defined[it.s]; ok {
+			for _, rs := range fc.symbolsOf(body) {
+				add(rs, it.lvl)
+			}
+		}
+		for _, i := range fc.symIndex[it.s] {
+			if i >= o.NAsserts {
 				continue
 			}
-			used[i] = true
-			for _, t := range fc.assertSyms[i] {
-				add(t)
+			defs := fc.assertDefs[i]
+			isDef := false
+			for _, d := range defs {
+				if d == it.s {
+					isDef = true
+				}
+			}
+			switch {
+			case isDef:
+				if used[i] >= it.lvl {
+					continue
+				}
+				used[i] = it.lvl
+				for _, t := range fc.assertSyms[i] {
+					add(t, it.lvl)
+				}
+			case len(defs) == 0 && it.lvl == strong && !isCtlSym(it.s):
+				// a constraint about a strongly relevant value
+				if used[i] > 0 {
+					continue
+				}
+				used[i] = weak
+				for _, t := range fc.assertSyms[i] {
+					if isCtlSym(t) {
+						add(t, strong)
+					} else {
+						add(t, weak)
+					}
+				}
 			}
 		}
 	}
 	var idx []int
 	for i := 0; i < o.NAsserts; i++ {
-		if used[i] {
+		if used[i] > 0 || strings.HasPrefix(fc.q.asserts[i], "(forall ((ea Ref)") {
 			idx = append(idx, i)
 		}
 	}
@@ -283,65 +377,49 @@ func portfolio(fc *FnCtx, o *Obligation, dir string, cfg SolverCfg, usesLambda b
 	if len(file) > 200 {
 		file = filepath.Join(dir, fmt.Sprintf("o_%x.smt2", hashStr(o.Name())))
 	}
-	// first attempt: the cone of influence of the goal only (sound for unsat; a sat answer is re-checked on the full query)
-	if false && !o.MustSat && o.NAsserts > 400 {
+	os.WriteFile(file, []byte(fc.queryText(o, true)), 0o644)
+	type res struct {
+		solver, verdict, out string
+		t                    float64
+		sliced               bool
+	}
+	ctx, cancel := context.WithCancel(context.Background())
+	defer cancel()
+	ch := make(chan res, 2*len(solvers))
+	n := 0
+	launch := func(name, bin string, args []string, f string, sliced bool) {
+		n++
+		go func() {
+			t0 := time.Now()
+			out, _ := runSolver(ctx, bin, args, f, cfg.QueryTimeout)
+			ch <- res{name, firstVerdict(out), out, time.Since(t0).Seconds(), sliced}
+		}()
+	}
+	for _, s := range solvers {
+		if usesLambda && strings.HasPrefix(s.name, "cvc5") {
+			continue
+		}
+		launch(s.name, s.bin, s.args, file, false)
+	}
+	// in parallel: the directed cone of influence of the goal (sound for unsat only; a sat answer there is ignored)
+	if !o.MustSat && o.NAsserts > 300 && os.Getenv("GOVC_NOSLICE") == "" {
 		fc.sliceMu.Lock()
 		txt := fc.queryTextSliced(o, false, true)
 		fc.sliceMu.Unlock()
 		sfile := strings.TrimSuffix(file, ".smt2") + ".sliced.smt2"
 		os.WriteFile(sfile, []byte(txt), 0o644)
-		type sres struct {
-			solver, verdict string
-			t               float64
-		}
-		sctx, scancel := context.WithCancel(context.Background())
-		sch := make(chan sres, 2)
 		for _, sv := range solvers[:2] {
-			go func(name, bin string, args []string) {
-				t0 := time.Now()
-				out, _ := runSolver(sctx, bin, args, sfile, cfg.QueryTimeout)
-				sch <- sres{name, firstVerdict(out), time.Since(t0).Seconds()}
-			}(sv.name, sv.bin, sv.args)
+			launch(sv.name+"(sliced)", sv.bin, sv.args, sfile, true)
 		}
-		done := false
-		for i := 0; i < 2; i++ {
-			r := <-sch
-			if r.verdict == "unsat" {
-				o.Verdict, o.Solver, o.TimeS = "discharged", r.solver+"(sliced)", r.t
-				done = true
-				break
-			}
-		}
-		scancel()
-		if done {
-			return
-		}
-	}
-	os.WriteFile(file, []byte(fc.queryText(o, true)), 0o644)
-	type res struct {
-		solver, verdict, out string
-		t              float64
-	}
-	ctx, cancel := context.WithCancel(context.Background())
-	defer cancel()
-	ch := make(chan res, len(solvers))
-	n := 0
-	for _, s := range solvers {
-		if usesLambda && strings.HasPrefix(s.name, "cvc5") {
-			continue
-		}
-		n++
-		go func(name, bin string, args []string) {
-			t0 := time.Now()
-			out, _ := runSolver(ctx, bin, args, file, cfg.QueryTimeout)
-			ch <- res{name, firstVerdict(out), out, time.Since(t0).Seconds()}
-		}(s.name, s.bin, s.args)
 	}
 	var outs []string
 	o.Verdict = "undecided"
 	for i := 0; i < n; i++ {
 		r := <-ch
 		outs = append(outs, fmt.Sprintf("[%s %.2fs] %s", r.solver, r.t, firstLine(r.out)))
+		if r.sliced && r.verdict != "unsat" {
+			continue
+		}
 		if r.verdict == "unsat" || r.verdict == "sat" {
 			o.Solver, o.TimeS = r.solver, r.t
 			proved := r.verdict == "unsat"
